@@ -470,9 +470,8 @@ Lemma source_substring_eq : forall content p, content <> [] ->
     let nl := detect_nl content in
     let b := line_begin nl content p in
     let e := line_end nl content p in
-    if N.ltb max_length (e - b)
-    then trim_spaces_from_left (slice content b (b + max_length - 3)) ++ dots
-    else trim_spaces_from_left (slice content b e).
+    let t := trim_spaces_from_left (slice content b e) in
+    if Nat.ltb 200 (length t) then firstn 197 t ++ dots else t.
 Proof. intros content p H. destruct content; [congruence|reflexivity]. Qed.
 
 Lemma line_text_gen : forall nl content pre line post p,
@@ -480,29 +479,18 @@ Lemma line_text_gen : forall nl content pre line post p,
   (forall c, In c content -> other_half nl c = false) ->
   (forall c, In c line -> is_nl c = false) ->
   is_line_at nl content pre line post p ->
-  (lead_blanks (firstn 197 line) < length (firstn 197 line))%nat ->
+  (lead_blanks line < length line)%nat ->
   source_substring content p = shown line.
 Proof.
   intros nl content pre line post p Hd Hoh Hnl Hat Hlead.
-  destruct (lead_blanks_firstn line 197 Hlead) as [Elead Llead].
   assert (Hne : content <> []).
   { destruct Hat as (Hc & _). subst content. intros E.
     apply (f_equal (@length byte)) in E. rewrite !app_length in E. cbn [length] in E. lia. }
   rewrite source_substring_eq by exact Hne. cbv zeta. rewrite Hd.
   rewrite (line_begin_at _ _ _ _ _ _ Hat), (line_end_at _ _ _ _ _ _ Hat Hoh).
   destruct Hat as (Hc & _). subst content.
-  unfold shown, max_length.
-  destruct (Nat.ltb 200 (length line)) eqn:E200.
-  - apply Nat.ltb_lt in E200.
-    replace (N.ltb 200 _) with true by (symmetry; apply N.ltb_lt; lia).
-    f_equal. unfold slice. rewrite Nat2N.id, skipn_app_len.
-    replace (N.to_nat _) with 197%nat by lia.
-    rewrite firstn_app_le by lia.
-    apply trim_skipn; [|exact Hlead].
-    intros x Hx. apply Hnl. now apply (In_firstn line 197).
-  - apply Nat.ltb_ge in E200.
-    replace (N.ltb 200 _) with false by (symmetry; apply N.ltb_ge; lia).
-    rewrite slice_line. now apply trim_skipn.
+  unfold shown. rewrite slice_line.
+  rewrite (trim_skipn line Hnl Hlead). reflexivity.
 Qed.
 
 Lemma caret_gen : forall nl content pre line post p,
@@ -538,7 +526,7 @@ Proof.
 Qed.
 
 Theorem line_text_lf : forall content pre line post p, lf_file content = true -> is_line_at LF content pre line post p ->
-  (lead_blanks (firstn 197 line) < length (firstn 197 line))%nat ->
+  (lead_blanks line < length line)%nat ->
   source_substring content p = shown line.
 Proof.
   intros content pre line post p Hf Hat Hlead.
@@ -581,7 +569,7 @@ Proof.
 Qed.
 
 Theorem line_text_cr : forall content pre line post p, cr_file content = true -> is_line_at CR content pre line post p ->
-  (lead_blanks (firstn 197 line) < length (firstn 197 line))%nat ->
+  (lead_blanks line < length line)%nat ->
   source_substring content p = shown line.
 Proof.
   intros content pre line post p Hf Hat Hlead.
